@@ -26,11 +26,16 @@ pub struct StepCase {
 
 pub fn check_step(c: &StepCase, l: &mut Local) -> Result<(), String> {
     let (amount, fee, liq, p0, p1, exact_in, a_to_b) = (c.amount, c.fee_rate, c.liquidity, c.p_cur, c.p_target, c.exact_in, c.a_to_b);
-    let r = match compute_swap(amount, fee, liq, p0, p1, exact_in, a_to_b) {
-        Ok(r) => r,
-        Err(_) => {
+    // a panic aborts the transaction on-chain: an unsuccessful computation like an error return
+    let r = match crate::rt::try_call(|| compute_swap(amount, fee, liq, p0, p1, exact_in, a_to_b)) {
+        Ok(Ok(r)) => r,
+        Ok(Err(_)) => {
             l.count("err");
             return Ok(()); // only successful computations are constrained
+        }
+        Err(_) => {
+            l.count("err_panic");
+            return Ok(());
         }
     };
     l.count("ok");
@@ -135,7 +140,7 @@ pub fn step_strategy() -> BoxedStrategy<StepCase> {
     ];
     // liquidity: by magnitude, or the inverse image of a whole-segment token amount on a boundary of the u64 result type
     let liq_target = prop_oneof![4 => Just(None), 1 => (any::<bool>(), 0usize..AMOUNT_TARGETS.len(), any::<u32>()).prop_map(Some)];
-    (gen::sqrt_price(), gen::bits_u128(128), gen::fee_rate(100_000), any::<bool>(), amt, any::<bool>(), liq_target)
+    (gen::sqrt_price(), gen::liquidity_u128(), gen::fee_rate(100_000), any::<bool>(), amt, any::<bool>(), liq_target)
         .prop_flat_map(|(p0, liq, fee, exact_in, amt, flag, lt)| {
             let tgt = prop_oneof![12 => gen::target_price(p0), 1 => Just(p0)];
             (Just((p0, liq, fee, exact_in, amt, flag, lt)), tgt)
@@ -169,6 +174,93 @@ pub fn step_strategy() -> BoxedStrategy<StepCase> {
         .boxed()
 }
 
+// ---------------------------------------------------------------------------------------------------
+// the 256-bit long division every amount above rests on
+
+#[derive(Clone, Debug, Serialize, Deserialize, Hash)]
+pub struct DivCase {
+    pub n: [u64; 4],
+    pub d: [u64; 4],
+}
+
+fn words_to_big(w: &[u64; 4]) -> BigUint {
+    w.iter().rev().fold(BigUint::from(0u8), |acc, x| (acc << 64u32) + BigUint::from(*x))
+}
+fn big_to_words(v: &BigUint) -> [u64; 4] {
+    let d = v.to_u64_digits();
+    let mut w = [0u64; 4];
+    for (i, x) in d.iter().take(4).enumerate() {
+        w[i] = *x;
+    }
+    w
+}
+
+pub fn check_div(c: &DivCase, l: &mut Local) -> Result<(), String> {
+    use whirlpool::math::U256Muldiv;
+    let mk = |w: &[u64; 4]| U256Muldiv::new(((w[3] as u128) << 64) | w[2] as u128, ((w[1] as u128) << 64) | w[0] as u128);
+    let (n, d) = (words_to_big(&c.n), words_to_big(&c.d));
+    if d == BigUint::from(0u8) {
+        return Ok(());
+    }
+    let (nn, dd) = (mk(&c.n), mk(&c.d));
+    // a panic aborts the transaction: an unsuccessful computation, which the property does not constrain (counted)
+    let Ok((q, r)) = crate::rt::try_call(|| nn.div(dd, true)) else {
+        l.count("division_panicked");
+        return Ok(());
+    };
+    let got_q = [q.get_word(0), q.get_word(1), q.get_word(2), q.get_word(3)];
+    let got_r = [r.get_word(0), r.get_word(1), r.get_word(2), r.get_word(3)];
+    let (wq, wr) = (&n / &d, &n % &d);
+    if words_to_big(&got_q) != wq || words_to_big(&got_r) != wr {
+        return Err(format!("{n} / {d}: program quotient {} remainder {}, exact {wq} remainder {wr}", words_to_big(&got_q), words_to_big(&got_r)));
+    }
+    let (nw, dw) = (c.n.iter().rposition(|x| *x != 0).map(|i| i + 1).unwrap_or(0), c.d.iter().rposition(|x| *x != 0).map(|i| i + 1).unwrap_or(0));
+    l.count(&format!("dividend_words_{nw}/divisor_words_{dw}"));
+    if dw >= 2 && nw >= dw {
+        l.nontrivial(hash_of(c));
+        l.sample(|| json!({"n": n.to_string(), "d": d.to_string(), "q": wq.to_string()}));
+    }
+    Ok(())
+}
+
+fn div_strategy() -> BoxedStrategy<DivCase> {
+    // words that drive schoolbook division into its correction steps
+    let word = || prop_oneof![3 => any::<u64>(), 1 => Just(0u64), 1 => Just(1u64), 1 => Just(u64::MAX), 1 => Just(u64::MAX - 1), 1 => Just(1u64 << 63), 1 => Just((1u64 << 63) - 1), 1 => Just((1u64 << 63) + 1), 1 => crate::gen::structured_u128(64).prop_map(|v| v as u64)];
+    let words = move || (word(), word(), word(), word(), 1usize..=4).prop_map(|(a, b2, c, d, n)| {
+        let mut w = [a, b2, c, d];
+        for x in w.iter_mut().skip(n) {
+            *x = 0;
+        }
+        w
+    });
+    prop_oneof![
+        // independent operands
+        2 => (words(), words()).prop_map(|(n, d)| DivCase { n, d }),
+        // dividend = q * d + r with r in {0, 1, d-1, d-2, random < d}: quotient digits on the edge of the estimate
+        3 => (words(), words(), 0u8..5, any::<u64>()).prop_map(|(q, d, rk, rr)| {
+            let (qb, db) = (words_to_big(&q), words_to_big(&d));
+            if db == BigUint::from(0u8) {
+                return DivCase { n: q, d };
+            }
+            let r = match rk {
+                0 => BigUint::from(0u8),
+                1 => BigUint::from(1u8).min(&db - 1u8),
+                2 => &db - 1u8,
+                3 => if db > BigUint::from(1u8) { &db - 2u8 } else { BigUint::from(0u8) },
+                _ => BigUint::from(rr) % &db,
+            };
+            // keep the dividend within 256 bits by shortening the quotient
+            let mut qq = qb;
+            let limit = BigUint::from(1u8) << 256u32;
+            while &qq * &db + &r >= limit {
+                qq >>= 7u32;
+            }
+            DivCase { n: big_to_words(&(&qq * &db + &r)), d }
+        }),
+    ]
+    .boxed()
+}
+
 pub fn def() -> CheckDef {
     CheckDef {
         id: "C02",
@@ -176,11 +268,16 @@ pub fn def() -> CheckDef {
                incl. tick boundaries ±2 units, near-equal pairs and the protocol bounds; amounts incl. the exact bigint cost of reaching the target \
                ±2 and that cost grossed up by the fee ±2; one liquidity in five is the exact inverse image of a whole-segment token amount on a boundary \
                of the u64 result type).  Oracle: exact rational curve amounts (BigUint), rounding direction, one-unit tightness, \
-               budget consumption.  Non-trivial = Ok result with L>0 and a price move; distinct = hash of all inputs.",
+               budget consumption.  Non-trivial = Ok result with L>0 and a price move; distinct = hash of all inputs.  wide_division: the program's 256-bit long \
+               division (every amount above is one such division) against big-integer quotient and remainder on operands built to sit on the edges of the \
+               quotient-digit estimate (words 0, 1, 2^63, 2^63±1, 2^64-1, dividends q*d + {0, 1, d-2, d-1}); a panic is an unsuccessful computation (counted, not constrained).",
         assumptions: vec![
             "only Ok results are constrained (the property says so)",
             "direction flag is the one every caller passes (a_to_b <=> target < current); for target == current both flags are generated",
         ],
-        subs: vec![sub("step", 16_000_000, 1_600_000_000, step_strategy, |c: &StepCase, l: &mut Local| check_step(c, l))],
+        subs: vec![
+            sub("step", 16_000_000, 1_600_000_000, step_strategy, |c: &StepCase, l: &mut Local| check_step(c, l)),
+            sub("wide_division", 8_000_000, 800_000_000, div_strategy, |c: &DivCase, l: &mut Local| check_div(c, l)),
+        ],
     }
 }
